@@ -67,7 +67,7 @@ def main():
                     try:
                         core._worker_run(c)
                     except BaseException:   # noqa
-                        signal.alarm(0)
+                        signal.setitimer(signal.ITIMER_REAL, 0)
             finally:
                 cov.stop()
                 cov.save()
